@@ -36,6 +36,12 @@ class EEMSRead(Command):
     }
     output = params.DataParameter()
 
+    @property
+    def is_fuzzy(self):
+        """ A variable read as fuzzy data is fuzzy data for the commands that use it """
+
+        return self.get_argument_value("DataType") == "Fuzzy"
+
     def execute(self, **kwargs):
         path = kwargs["InFileName"]
         variable_name = kwargs["InFieldName"]
